@@ -18,7 +18,7 @@ def obligations(tier):
     o = []
     for fe, fen in [(0, "ult"), (1, "ext")]:
         o.append(Obl("join_" + fen, "C03/join.c", "ABT_thread_join by %s; the target's joiner wake-up and termination (real code) placed by the solver before, inside or after the handshake and while the joiner is parked: join returns only after TERMINATED and after the target's function returned, and it does return (stuck predicate: missed hand-off)" % ("a ULT on another stream" if fe == 0 else "an external thread (futex)"),
-                     real=["src/thread.c", "src/ythread.c", "src/arch/abtd_futex.c"], hooks=True, defs=["FOCUS_EXT=%d" % fe, "VR_SLEEP_STEPS=3", "VR_REAL_REQUESTS"], unwind=4,
+                     real=["src/thread.c", "src/ythread.c", "src/arch/abtd_futex.c"], hooks=True, defs=["FOCUS_EXT=%d" % fe, "VR_SLEEP_STEPS=3", "VR_REAL_REQUESTS", "VR_HOOK_PAUSE"], unwind=4,
                      cut_loops=SPIN, object_bits=12, backend="cadical", no_std=["--pointer-overflow-check", "--signed-overflow-check", "--undefined-shift-check"],
                      encodes=["ABT_thread_join", "thread_join", "thread_join_futexwait", "thread_join_yield_thread", "thread_join_busywait", "ABTI_ythread_suspend_join", "ABTI_ythread_callback_suspend_join", "ABTI_ythread_atomic_get_joiner", "ABTI_ythread_resume_joiner", "ABTI_ythread_callback_exit", "ABTI_thread_terminate", "ABTD_futex_suspend", "ABTD_futex_resume"],
                      bounds="1 joiner, 1 target, <=1 environment step per scheduling point, <=3 while parked; wait loops cut after 2 rounds", symbolic="when the join is issued relative to the target's exit (before/during/after), placement of both exit steps",
